@@ -250,6 +250,11 @@ def hasher(hid):
 
 def check(op, args, res):
     a = [int(x) for x in args]
+    if op == "deepprove":
+        if res != ["1", "1", "1"]:
+            what = "panicked" if res == ["panic"] else "verifies=%s path_equals_levelwise=%s other_leaf_rejected=%s" % tuple((res + ["?"] * 3)[:3])
+            return "tree of 2^%d leaves, cap height %d, position %d: %s" % (a[1], a[2], a[4], what)
+        return None
     if op == "hashleaf":
         return expect(res, list(hasher(a[0]).leaf(a[1:])), "hash_or_noop")
     if op == "twoto1":
